@@ -198,6 +198,36 @@ pub fn run(tier: Tier) -> i32 {
         }
     }
 
+    // ------------------------------------------------------------------ (2b) grammar-generated near-valid LZMA2: every chunk sequence, ill-formed ones included
+    {
+        let name = "lzma2-chunk-grammar";
+        if ctx.may_start(name) {
+            let t0 = Instant::now();
+            let kinds = super::c02::chunk_kinds(seed, false);
+            let depth = 3usize;
+            let total = count_upto(kinds.len(), depth);
+            par_for(total, |i| {
+                let cs: Vec<Chunk> = nth_seq(kinds.len(), depth, i).iter().map(|&k| kinds[k].clone()).collect();
+                let w = lzma2::write(&cs);
+                // well-formed sequences are C02's subject; here everything the writer can serialise is submitted
+                let case = dec_case(Fmt::Lzma2, Opts::default(), w.bytes.clone());
+                let o = run_case(&case);
+                if w.ill.is_some() {
+                    ctx.nontriv(1);
+                }
+                judge(&ctx, &case, &o, &|| format!("LZMA2 chunk sequence [{}] ({})", lzma2::chunks_str(&cs), w.ill.clone().unwrap_or_else(|| "well-formed".into())));
+                // the ill-formed ones also inside an XZ block (the container's own code path into the LZMA2 decoder)
+                if w.ill.is_some() && i % 7 == 0 {
+                    let f = XzFile { check_id: 0, blocks: vec![xz::Block { payload: w.bytes.clone(), plain: w.expect.clone(), ..Default::default() }], ..Default::default() };
+                    let case = dec_case(Fmt::Xz, Opts::default(), xz::build(&f).0);
+                    let o = run_case(&case);
+                    judge(&ctx, &case, &o, &|| format!("XZ block with LZMA2 chunk sequence [{}]", lzma2::chunks_str(&cs)));
+                }
+            });
+            ctx.scope_done(name, total, t0, "every sequence of <= 3 chunk kinds out of 84, including invalid references, missing resets and missing properties");
+        }
+    }
+
     // ------------------------------------------------------------------ (3) XZ field extremes with CRC repair
     {
         let name = "xz-field-extremes";
